@@ -103,6 +103,26 @@ def show(v: ty.Any) -> str:
     return ren(v)
 
 
+def run_inner(t: ty.Any) -> str:
+    """executes the task it receives as an INPUT VALUE (in a private, empty cache root) and returns its rendered outputs:
+    the identity of this outer task depends on the inner task only through pydra's hash of a task object"""
+    import os
+    import shutil
+    import tempfile
+    from pydra.utils.general import attrs_values
+    d = tempfile.mkdtemp(prefix="inner", dir=os.environ["VT_C06_TMP"])
+    try:
+        outs = t(cache_root=d)
+        return repr({k: repr(v) for k, v in sorted(attrs_values(outs).items())})
+    finally:
+        shutil.rmtree(d, ignore_errors=True)
+
+
+def as_input(variant):
+    vid, factory, prepare = variant
+    return (vid, lambda: _py(run_inner, t=factory()), prepare)
+
+
 class DictSub(dict):
     pass
 
